@@ -198,86 +198,86 @@ non-negative, a live bank's deposit share value positive). That is part of the i
 every transaction keeps (`stepIn_sinv`): so from a sound state, every user instruction of every committed transaction — inside a
 flash-loan or receivership bracket or not — ran in a context for which the no-free-value bound holds. -/
 
-/-- the context an instruction of a transaction ran in: built from a reached, sound state -/
-def Reached (ai bi signer : Nat) (vault : Int) (c : Ctx) : Prop :=
-  ∃ (wi : WState) (a : AcctV) (b : WBank), SInv wi ∧ wi.accts[ai]? = some a ∧ wi.banks[bi]? = some b ∧
+/-- the context instruction `i` of transaction `tx` ran in: built from the (sound) state the transaction had reached before it -/
+def Reached (w : WState) (tx : List TOp) (i ai bi signer : Nat) (vault : Int) (c : Ctx) : Prop :=
+  ∃ (wi : WState) (a : AcctV) (b : WBank), w.before tx i = some wi ∧ SInv wi ∧ wi.accts[ai]? = some a ∧ wi.banks[bi]? = some b ∧
     c = wi.ctx a b signer b.v.liquidityVault vault
 
 /-- **world_tx_deposit_no_free_value** -/
 theorem world_tx_deposit_no_free_value {w w' : WState} {tx : List TOp} (h : w.runTx tx = some w') (hi : SInv w) (hok : ∀ t ∈ tx, t.Ok)
     {i ai bi signer : Nat} {amount : Int} {upTo : Bool} (hix : tx[i]? = some (.ix (.deposit ai bi signer amount upTo))) :
-    ∃ (c : Ctx) (o : Out), Reached ai bi signer 0 c ∧ World.deposit c amount upTo = .ok o ∧
+    ∃ (c : Ctx) (o : Out), Reached w tx i ai bi signer 0 c ∧ World.deposit c amount upTo = .ok o ∧
       ∃ (b : Bank), accrueInterest c.b.books c.b.ir c.now = .ok b ∧
         ((o.tokens = 0 ∧ o.slots = c.a.slots) ∨
          ∃ (slots : List Account.Slot) (i : Nat) (s : Account.Slot) (x' : Balance),
             Account.findOrCreate c.a.slots c.b.key b.assetTag c.now = .ok (slots, i) ∧
             slots[i]? = some s ∧ o.slots = writeSlot c slots i x' ∧
             netValue o.books x' - netValue b (toBal s) ≤ received c.ixEnv o.tokens * ONE * ONE) := by
-  obtain ⟨wi, wi', hsi, hst⟩ := runFrom_at_sinv tx tx 0 w w' rfl h hi hok i _ (Nat.zero_le _) hix
+  obtain ⟨wi, wi', hbef, hsi, hst⟩ := runFrom_at_sinv tx w tx 0 w w' rfl (before_zero w tx) h hi hok i _ (Nat.zero_le _) hix
   have ha0 : 0 ≤ amount := hok _ (List.mem_of_getElem? hix)
   simp only [WState.stepIn, WState.step?] at hst
   split at hst
   · rename_i a b ha hb
     split at hst
     · rename_i o ho
-      exact ⟨_, o, ⟨wi, a, b, hsi, ha, hb, rfl⟩, ho, world_deposit_no_free_value ho (pre_of_inv hsi ha hb signer _ 0) ha0⟩
+      exact ⟨_, o, ⟨wi, a, b, hbef, hsi, ha, hb, rfl⟩, ho, world_deposit_no_free_value ho (pre_of_inv hsi ha hb signer _ 0) ha0⟩
     · cases hst
   · cases hst
 
 /-- **world_tx_borrow_no_free_value** -/
 theorem world_tx_borrow_no_free_value {w w' : WState} {tx : List TOp} (h : w.runTx tx = some w') (hi : SInv w) (hok : ∀ t ∈ tx, t.Ok)
     {i ai bi signer : Nat} {amount : Int} (hix : tx[i]? = some (.ix (.borrow ai bi signer amount))) :
-    ∃ (c : Ctx) (o : Out), Reached ai bi signer 0 c ∧ World.borrow c amount = .ok o ∧
+    ∃ (c : Ctx) (o : Out), Reached w tx i ai bi signer 0 c ∧ World.borrow c amount = .ok o ∧
       ∃ (b : Bank) (slots : List Account.Slot) (i : Nat) (s : Account.Slot) (x' : Balance),
         accrueInterest c.b.books c.b.ir c.now = .ok b ∧
         Account.findOrCreate c.a.slots c.b.key b.assetTag c.now = .ok (slots, i) ∧ slots[i]? = some s ∧ o.slots = writeSlot c slots i x' ∧
         o.tokens * ONE * ONE - (b.asv + b.lsv) < netValue b (toBal s) - netValue o.books x' := by
-  obtain ⟨wi, wi', hsi, hst⟩ := runFrom_at_sinv tx tx 0 w w' rfl h hi hok i _ (Nat.zero_le _) hix
+  obtain ⟨wi, wi', hbef, hsi, hst⟩ := runFrom_at_sinv tx w tx 0 w w' rfl (before_zero w tx) h hi hok i _ (Nat.zero_le _) hix
   have ha0 : 0 ≤ amount := hok _ (List.mem_of_getElem? hix)
   simp only [WState.stepIn, WState.step?] at hst
   split at hst
   · rename_i a b ha hb
     split at hst
     · rename_i o ho
-      exact ⟨_, o, ⟨wi, a, b, hsi, ha, hb, rfl⟩, ho, world_borrow_no_free_value ho (pre_of_inv hsi ha hb signer _ 0) ha0⟩
+      exact ⟨_, o, ⟨wi, a, b, hbef, hsi, ha, hb, rfl⟩, ho, world_borrow_no_free_value ho (pre_of_inv hsi ha hb signer _ 0) ha0⟩
     · cases hst
   · cases hst
 
 /-- **world_tx_withdraw_no_free_value** -/
 theorem world_tx_withdraw_no_free_value {w w' : WState} {tx : List TOp} (h : w.runTx tx = some w') (hi : SInv w) (hok : ∀ t ∈ tx, t.Ok)
     {i ai bi signer : Nat} {amount vault : Int} {all : Bool} (hix : tx[i]? = some (.ix (.withdraw ai bi signer amount all vault))) :
-    ∃ (c : Ctx) (o : Out), Reached ai bi signer vault c ∧ World.withdraw c amount all = .ok o ∧
+    ∃ (c : Ctx) (o : Out), Reached w tx i ai bi signer vault c ∧ World.withdraw c amount all = .ok o ∧
       ∃ (b : Bank) (i : Nat) (s : Account.Slot) (x' : Balance), accrueInterest c.b.books c.b.ir c.now = .ok b ∧ findSlot c = .ok (i, s) ∧
         o.slots = writeSlot c c.a.slots i x' ∧
         (if all then o.tokens * ONE * ONE ≤ s.a * b.asv ∧ x'.a = 0 ∧ x'.l = 0
          else o.tokens * ONE * ONE - (b.asv + b.lsv) < netValue b (toBal s) - netValue o.books x') := by
-  obtain ⟨wi, wi', hsi, hst⟩ := runFrom_at_sinv tx tx 0 w w' rfl h hi hok i _ (Nat.zero_le _) hix
+  obtain ⟨wi, wi', hbef, hsi, hst⟩ := runFrom_at_sinv tx w tx 0 w w' rfl (before_zero w tx) h hi hok i _ (Nat.zero_le _) hix
   have ha0 : 0 ≤ amount := hok _ (List.mem_of_getElem? hix)
   simp only [WState.stepIn, WState.step?] at hst
   split at hst
   · rename_i a b ha hb
     split at hst
     · rename_i o ho
-      exact ⟨_, o, ⟨wi, a, b, hsi, ha, hb, rfl⟩, ho, world_withdraw_no_free_value ho (pre_of_inv hsi ha hb signer _ vault) ha0⟩
+      exact ⟨_, o, ⟨wi, a, b, hbef, hsi, ha, hb, rfl⟩, ho, world_withdraw_no_free_value ho (pre_of_inv hsi ha hb signer _ vault) ha0⟩
     · cases hst
   · cases hst
 
 /-- **world_tx_repay_no_free_value** -/
 theorem world_tx_repay_no_free_value {w w' : WState} {tx : List TOp} (h : w.runTx tx = some w') (hi : SInv w) (hok : ∀ t ∈ tx, t.Ok)
     {i ai bi signer : Nat} {amount : Int} {all : Bool} (hix : tx[i]? = some (.ix (.repay ai bi signer amount all))) :
-    ∃ (c : Ctx) (o : Out), Reached ai bi signer 0 c ∧ World.repay c amount all = .ok o ∧
+    ∃ (c : Ctx) (o : Out), Reached w tx i ai bi signer 0 c ∧ World.repay c amount all = .ok o ∧
       ∃ (b : Bank) (i : Nat) (s : Account.Slot) (x' : Balance), accrueInterest c.b.books c.b.ir c.now = .ok b ∧ findSlot c = .ok (i, s) ∧
         o.slots = writeSlot c c.a.slots i x' ∧
         (if all then x'.a = 0 ∧ x'.l = 0 ∧ (tokenless c true = false → s.l * b.lsv - ONE < received c.ixEnv o.tokens * ONE * ONE)
          else netValue o.books x' - netValue b (toBal s) ≤ received c.ixEnv o.tokens * ONE * ONE) := by
-  obtain ⟨wi, wi', hsi, hst⟩ := runFrom_at_sinv tx tx 0 w w' rfl h hi hok i _ (Nat.zero_le _) hix
+  obtain ⟨wi, wi', hbef, hsi, hst⟩ := runFrom_at_sinv tx w tx 0 w w' rfl (before_zero w tx) h hi hok i _ (Nat.zero_le _) hix
   have ha0 : 0 ≤ amount := hok _ (List.mem_of_getElem? hix)
   simp only [WState.stepIn, WState.step?] at hst
   split at hst
   · rename_i a b ha hb
     split at hst
     · rename_i o ho
-      exact ⟨_, o, ⟨wi, a, b, hsi, ha, hb, rfl⟩, ho, world_repay_no_free_value ho (pre_of_inv hsi ha hb signer _ 0) ha0⟩
+      exact ⟨_, o, ⟨wi, a, b, hbef, hsi, ha, hb, rfl⟩, ho, world_repay_no_free_value ho (pre_of_inv hsi ha hb signer _ 0) ha0⟩
     · cases hst
   · cases hst
 
